@@ -129,6 +129,15 @@ func (ex *Exec) step(st *State) {
 	}
 	ex.exec(st, co, fr, in)
 	st.decs = st.decs[:0]
+	if st.yieldTo > 0 {
+		if tgt := st.yieldTo - 1; !st.done && tgt < len(st.coros) && st.coros[tgt].status != CoDone {
+			if c := st.coros[tgt]; c.status == CoBlocked {
+				c.status = CoRunnable // retry its instruction
+			}
+			st.cur = tgt
+		}
+		st.yieldTo = 0
+	}
 	if co.status == CoBlocked {
 		st.blockedStreak++
 	} else {
